@@ -138,7 +138,8 @@ Inductive event :=
 | NoticeChild (x : slot)      (* SIGCHLD handled: reap_workers *)
 | NoticeParent (x : slot)     (* top of the main loop: maybe_promote_master *)
 | HUP (x : slot)              (* reload *)
-| WINCH (x : slot).
+| WINCH (x : slot)
+| Halt (x : slot) (code : Z). (* the master stops by itself: HaltServer (its workers cannot boot: code 3 / 4), same clean-up as a stop *)
 
 Definition step (c : cfg) (s : st) (e : event) : st :=
   match e with
@@ -189,6 +190,8 @@ Definition step (c : cfg) (s : st) (e : event) : st :=
   | WINCH x =>
       let m := get s x in
       if m_alive m && daemon c then put s x (set_m_workers m 0) else s
+  | Halt x code =>
+      if m_alive (get s x) then do_exit c s x code else s
   end.
 
 Definition run (c : cfg) (s : st) (es : list event) : st := fold_left (step c) es s.
